@@ -301,4 +301,78 @@ theorem c01_program_from_reset (k : Nat) (m : Flat) (hdef : Defined k (abs Regs.
       (specRun k (abs Regs.init m)).1 :=
   (c01_program_refines_gen k Cpu.init m ⟨by decide, rfl, rfl⟩ (by decide) hdef).2.2
 
+/-! ### non-vacuity: concrete programs, the model and the specification evaluated independently -/
+
+/-- `HALT ; INC B ; …` at 0x0100, IME clear, Timer and Joypad requested and enabled (the halt bug) -/
+def exHaltBug : Flat := ⟨fun a => if a = 0x0100 then 0x76 else 0x04, false, 0x1f, 0x14⟩
+/-- `EI ; NOP ; …` at 0x0100, IME clear, Timer requested and enabled -/
+def exEiNop : Flat := ⟨fun a => if a = 0x0100 then 0xfb else 0x00, false, 0x1f, 0x04⟩
+/-- the undefined opcode 0xD3 everywhere -/
+def exUndefined : Flat := ⟨fun _ => 0xd3, false, 0, 0⟩
+/-- a halted / a stopped power-on CPU -/
+def exHalted : Cpu := { Cpu.init with regs := { Regs.init with halted := true } }
+def exStopped : Cpu := { Cpu.init with regs := { Regs.init with stopped := true } }
+
+/-- the hypotheses of `c01_step_refines` / `c01_program_refines` hold at power-on -/
+example : Boundary Cpu.init ∧ FLow Cpu.init.regs ∧
+    (specStep (abs Cpu.init.regs exHaltBug)).2.1 ≠ .undefined ∧ Defined 3 (abs Cpu.init.regs exHaltBug) ∧
+    Defined 3 (abs Cpu.init.regs exEiNop) := by
+  refine ⟨⟨?_, ?_, ?_⟩, ?_, ?_, ?_, ?_⟩ <;> decide +kernel
+
+/-- halt bug, specification side: HALT does not idle, INC B is executed twice, 3 machine cycles in all,
+    B = 0 + 2, PC has advanced past the two bytes only -/
+example : specTrace 3 (abs Regs.init exHaltBug) =
+      [.instr .halt, .instr (.inc (.r .b)), .instr (.inc (.r .b))] ∧
+    (specRun 3 (abs Regs.init exHaltBug)).2 = 3 ∧
+    (specRun 1 (abs Regs.init exHaltBug)).1.haltbug = true ∧
+    (specRun 3 (abs Regs.init exHaltBug)).1.b = 2 ∧
+    (specRun 3 (abs Regs.init exHaltBug)).1.pc = 0x0102 ∧
+    (specRun 3 (abs Regs.init exHaltBug)).1.haltbug = false := by
+  decide +kernel
+
+/-- halt bug, model side, evaluated independently: after those 3 machine cycles the model shows the same
+    architectural state (what `c01_program_refines` proves for every program) -/
+example : (abs (cycles specTables 3 Cpu.init exHaltBug).1.regs (cycles specTables 3 Cpu.init exHaltBug).2).same
+      (specRun 3 (abs Regs.init exHaltBug)).1 = true ∧
+    (cycles Tables.gen 3 Cpu.init exHaltBug).1.regs.b = 2 := by
+  decide +kernel
+
+/-- EI delay, specification side: EI (1 cycle), NOP (1 cycle, IME set by its fetch), then – and only
+    then – the Timer interrupt is dispatched (5 cycles): 7 machine cycles, PC = 0x50, return address
+    0x0102 on the stack, IME clear, IF acknowledged -/
+example : specTrace 3 (abs Regs.init exEiNop) = [.instr .ei, .instr .nop, .dispatch 2] ∧
+    (specRun 3 (abs Regs.init exEiNop)).2 = 7 ∧
+    (specRun 1 (abs Regs.init exEiNop)).1.bus.ime = false ∧
+    (specRun 2 (abs Regs.init exEiNop)).1.bus.ime = true ∧
+    (specRun 3 (abs Regs.init exEiNop)).1.pc = 0x0050 ∧
+    (specRun 3 (abs Regs.init exEiNop)).1.sp = 0xfffc ∧
+    (specRun 3 (abs Regs.init exEiNop)).1.rd 0xfffd = 0x01 ∧
+    (specRun 3 (abs Regs.init exEiNop)).1.rd 0xfffc = 0x02 ∧
+    (specRun 3 (abs Regs.init exEiNop)).1.bus.ime = false ∧
+    (specRun 3 (abs Regs.init exEiNop)).1.bus.ifl = 0x00 := by
+  decide +kernel
+
+/-- EI delay, model side, evaluated independently -/
+example : (abs (cycles specTables 7 Cpu.init exEiNop).1.regs (cycles specTables 7 Cpu.init exEiNop).2).same
+      (specRun 3 (abs Regs.init exEiNop)).1 = true ∧
+    (cycles specTables 7 Cpu.init exEiNop).2.read 0xfffd = 0x01 ∧
+    (cycles specTables 7 Cpu.init exEiNop).2.read 0xfffc = 0x02 ∧
+    (cycles specTables 2 Cpu.init exEiNop).1.isFinished = true ∧
+    (cycles specTables 4 Cpu.init exEiNop).1.isFinished = false := by
+  decide +kernel
+
+/-- a halted CPU with IME set is woken by a dispatch taking 6 cycles; with IME clear it wakes in one cycle
+    without dispatching; with nothing pending it idles; a stopped CPU idles -/
+example : (specStep (abs exHalted.regs ⟨fun _ => 0, true, 0x1f, 0x04⟩)).2 = (.dispatch 2, 6) ∧
+    (specStep (abs exHalted.regs ⟨fun _ => 0, false, 0x1f, 0x04⟩)).2 = (.wake, 1) ∧
+    (specStep (abs exHalted.regs ⟨fun _ => 0, true, 0x1b, 0x04⟩)).2 = (.idle, 1) ∧
+    (specStep (abs exStopped.regs ⟨fun _ => 0, false, 0x1f, 0x04⟩)).2 = (.idle, 1) ∧
+    Boundary exHalted ∧ Boundary exStopped ∧ FLow exHalted.regs ∧ FLow exStopped.regs := by
+  refine ⟨?_, ?_, ?_, ?_, ⟨?_, ?_, ?_⟩, ⟨?_, ?_, ?_⟩, ?_, ?_⟩ <;> decide +kernel
+
+/-- the hypothesis of `c01_undefined_stops`: 0xD3 at PC is an `undefined` step, and the model exits -/
+example : Boundary Cpu.init ∧ (specStep (abs Cpu.init.regs exUndefined)).2.1 = .undefined ∧
+    (cycle Tables.gen Cpu.init exUndefined).1.regs.exited = true := by
+  refine ⟨⟨?_, ?_, ?_⟩, ?_, ?_⟩ <;> decide +kernel
+
 end Tetro.C01
